@@ -4,7 +4,8 @@
 // Scenarios per depth: (4)/(5) serial / concurrent queue suspended from an item that runs synchronously as a barrier while a
 // blocked dispatch_sync caller and asynchronous items are already queued behind it, (0) serial queue suspended from outside, (1) serial queue suspended from its own item,
 // (2) concurrent queue suspended from a barrier item, (3) queue created inactive, suspended depth-1 times, activate last.
-// usage: c06_suspend <seed>; output as harness/tr_lane.c ("Q ..." header, "ORACLE ok|VIOL", "E ..." events)
+// (6) hand-over of the last resume to another thread while the drainer leaves (see scenario_handover).
+// usage: c06_suspend <seed> [handover trials]; output as harness/tr_lane.c ("Q ..." header, "ORACLE ok|VIOL", "E ..." events)
 #define _GNU_SOURCE
 #include <dispatch/dispatch.h>
 #include <stdio.h>
@@ -84,11 +85,33 @@ static void scenario_external(int qidx){ dispatch_queue_t q=dispatch_queue_creat
   if(s1>s0+1) fail("more than one item started after dispatch_suspend returned: before/after",s0,s1,0);
   dispatch_resume(q); dispatch_sync(q,^{}); if(started!=n) fail("items lost across suspend/resume: started/expected",started,n,0);
   CUR=NULL; dispatch_release(q); }
+// (6) hand-over: an item suspends its own serial queue with another item pending; the matching resume comes from another thread
+// while the drainer is on its way out (held for a random time after each read of dq_state it makes there - a preemption). Neither side
+// may assume the other re-drives the queue: the pending item must run.
+extern cb_t _dispatch_verif_load_cb; static volatile void *CURS; static __thread uint64_t lrng; static atomic_long lholds;
+static void lcb(const volatile void *addr, unsigned size, int op, uint64_t o, uint64_t n, const char *func, int line){ (void)size;(void)op;(void)o;(void)n;(void)line;
+  if(addr!=CURS || !CURS) return; if(strcmp(func,"_dispatch_queue_invoke_finish") && strcmp(func,"_dispatch_lane_resume") && strcmp(func,"_dispatch_queue_drain_try_unlock")) return;
+  if(!lrng) lrng=0x9e3779b97f4a7c15ull ^ (uint64_t)syscall(SYS_gettid)*0xbf58476d1ce4e5b9ull; lrng^=lrng<<13; lrng^=lrng>>7; lrng^=lrng<<17;
+  if(lrng%3==0){ atomic_fetch_add(&lholds,1); usleep((useconds_t)(10+(lrng>>8)%250)); } }
+static void scenario_handover(int qidx, int trial){ dispatch_queue_t q=dispatch_queue_create("c06h",NULL); curq=qidx; CUR=q; CURS=_dispatch_verif_queue_state_addr(q);
+  printf("Q %d width 1 stateoff %ld\n", qidx, (long)((char*)CURS-(char*)q));
+  __block atomic_int susp=0, b_ran=0; atomic_int *sp=&susp, *br=&b_ran;
+  _dispatch_verif_load_cb=lcb;
+  dispatch_async(q,^{ dispatch_suspend(q); atomic_store(sp,1); }); dispatch_async(q,^{ atomic_store(br,1); });
+  for(int w=0; w<200000 && !atomic_load(sp); w++) usleep(10);
+  if(atomic_load(br)) fail("an item started while its queue was suspended by the previous item: trial",trial,0,0);
+  usleep((useconds_t)((trial*37)%400));
+  dispatch_resume(q);
+  for(int w=0; w<3000 && !atomic_load(br); w++) usleep(1000);
+  _dispatch_verif_load_cb=0;
+  if(!atomic_load(br)){ fail("pending item did not run within 3 s of the last resume, issued by another thread while the drainer was leaving the suspended queue: trial",trial,0,0); CUR=NULL; CURS=NULL; return; }
+  dispatch_sync(q,^{}); CUR=NULL; CURS=NULL; dispatch_release(q); }
 int main(int argc,char**argv){ uint64_t seed=argc>1?strtoull(argv[1],0,0):1; rs=seed; evs=calloc(MAXEV,sizeof *evs);
   _dispatch_verif_atomic_cb=cb;
   static const int depths[]={1,2,31,32,33,63,64,65,95,96,97,127,128,129,200}; int nd=(int)(sizeof depths/sizeof *depths); int qi=0, sc=0;
   for(int k=0;k<6 && !viol;k++) for(int d=0; d<nd && !viol; d++){ if(((seed+ (uint64_t)k*7 + (uint64_t)d)%3)==0 && depths[d]<96) continue; scenario(k,depths[d],qi++); sc++; }
   for(int i=0;i<6 && !viol;i++){ scenario_external(qi++); sc++; }
+  { int nt=argc>2?atoi(argv[2]):60; for(int i=0;i<nt && !viol;i++){ scenario_handover(qi++,i+(int)(seed%7)); sc++; } }
   _dispatch_verif_atomic_cb=0;
   if(viol) printf("ORACLE VIOL seed=%llu %s\n",(unsigned long long)seed,vmsg); else printf("ORACLE ok items=%d events=%lu\n",sc,atomic_load(&nev));
   dump(); return viol?1:0; }
